@@ -12,6 +12,8 @@ import (
 	"strings"
 	"text/template"
 	"text/template/parse"
+
+	"github.com/google/safehtml/internal/safehtmlutil"
 )
 
 // TODO: remove all unused escaping logic inherited from html/template.
@@ -947,7 +949,8 @@ func indirectToStringerOrError(a interface{}) interface{} {
 		return nil
 	}
 	v := reflect.ValueOf(a)
-	for !v.Type().Implements(fmtStringerType) && !v.Type().Implements(errorType) && v.Kind() == reflect.Ptr && !v.IsNil() {
+	var seen []uintptr
+	for !v.Type().Implements(fmtStringerType) && !v.Type().Implements(errorType) && v.Kind() == reflect.Ptr && !v.IsNil() && !safehtmlutil.SeenPointer(&seen, v) {
 		v = v.Elem()
 	}
 	return v.Interface()
